@@ -171,3 +171,49 @@ Lemma C17xn_model_ok_lemma : forall c ops, wf17x c -> xops_of (cx_ops c) = Some 
 Proof.
   intros c ops W X NU. unfold run_C17xn. apply ok_C17xn_of_x. exact (C17x_model_ok_lemma c ops W X NU).
 Qed.
+
+(* ------------------------------------------------------------------ the slice / object / exact forms (round w7b):
+   reporting a completed basic operation as Err keeps the history checker satisfied (Err demands less than done) *)
+Lemma op_ok_force c op f p : op_ok c op p = true -> op_ok c op (force_op f p) = true.
+Proof.
+  unfold force_op. destruct f; cbn [andb]; [|auto].
+  destruct (N.eqb_spec (p_r p) 1) as [E|_]; [|auto].
+  unfold op_ok. rewrite E. cbn [p_r p_data p_live p_evs].
+  change (1 =? 1) with true. change (0 =? 1) with false.
+  destruct (p_data p =? 1); cbn [andb]; [|auto].
+  destruct (cx_rkind c =? 3); [|auto].
+  destruct (p_live p =? 0); cbn [andb]; [|auto].
+  destruct (touched (cx_size c) op) as [[a n]|]; [|auto].
+  rewrite andb_false_r. auto.
+Qed.
+Lemma ops_ok_force c : forall ops os fl, ops_ok c ops os = true -> ops_ok c ops (force_err fl os) = true.
+Proof.
+  induction ops as [|op r IH]; intros [|p os] fl H; cbn [force_err]; try exact H.
+  - destruct fl; exact H.
+  - destruct fl as [|f fr]; [exact H|]. cbn [ops_ok] in *. apply andb_true_iff in H. destruct H as [H1 H2].
+    rewrite (op_ok_force c op f p H1), (IH os fr H2). reflexivity.
+Qed.
+Lemma strip_force fl : forall os, map strip_op (force_err fl os) = force_err fl (map strip_op os).
+Proof.
+  induction fl as [|f fr IH]; intros [|p os]; cbn [force_err map]; try reflexivity.
+  rewrite IH. f_equal. unfold force_op, strip_op. cbn [p_r]. destruct (f && (p_r p =? 1)); reflexivity.
+Qed.
+Lemma named_force d fl : forall os, forallb (fun p => maps_named d (p_evs p)) (force_err fl os) =
+                                    forallb (fun p => maps_named d (p_evs p)) os.
+Proof.
+  induction fl as [|f fr IH]; intros [|p os]; cbn [force_err forallb]; try reflexivity.
+  rewrite IH. f_equal. unfold force_op. destruct (f && (p_r p =? 1)); reflexivity.
+Qed.
+Lemma ok_C17xn_force c fl o : ok_C17xn c o = true -> ok_C17xn c (force_err_obs fl o) = true.
+Proof.
+  unfold ok_C17xn. intros H. apply andb_true_iff in H. destruct H as [H1 H2].
+  unfold force_err_obs at 2. cbn [ox_ops]. rewrite named_force, H2, andb_true_r.
+  revert H1. unfold ok_C17x, strip_obs, force_err_obs.
+  cbn [ox_built ox_ops ox_mapped_alive ox_mapped_end ox_live_end]. rewrite strip_force.
+  destruct (ox_built o =? 1); [|auto]. intros H. apply andb_true_iff in H. destruct H as [H H5].
+  apply andb_true_iff in H. destruct H as [H H4]. apply andb_true_iff in H. destruct H as [H H3].
+  rewrite (ops_ok_force c _ _ fl H), H3, H4, H5. reflexivity.
+Qed.
+Lemma C17xb_model_ok_lemma : forall c ops fl, wf17x c -> xops_of (cx_ops c) = Some ops -> no_unguarded c ->
+  ok_C17xn c (force_err_obs fl (run_C17xn c ops)) = true.
+Proof. intros c ops fl W X NU. apply ok_C17xn_force. exact (C17xn_model_ok_lemma c ops W X NU). Qed.
